@@ -107,6 +107,9 @@ def family(quick=True):
     T["byvalue.save-restore.demo-shape"] = ("x: uint256\nhist: DynArray[uint256, 4]\n\n@internal\ndef bump(n: uint256) -> uint256:\n    for i: uint256 in range(n, bound=3):\n        self.hist.append(self.x ^ i)\n"
                                             "    self.x = self.x ^ (n << 8)\n    return self.x\n\n@external\ndef other(n: uint256) -> uint256:\n    return self.bump(n & 1) ^ self.bump(1)\n\n"
                                             "@external\ndef f() -> uint256:\n    saved: uint256 = self.x\n    r: uint256 = self.bump(2)\n    self.x = saved\n    return r\n")
+    T["byvalue.save-restore.demo-shape.transient"] = ("tv: transient(uint256)\nhist: DynArray[uint256, 4]\n\n@internal\ndef bump(n: uint256) -> uint256:\n    for i: uint256 in range(n, bound=3):\n        self.hist.append(self.tv ^ i)\n"
+                                                      "    self.tv = self.tv ^ (n << 8)\n    return self.tv\n\n@external\ndef other(n: uint256) -> uint256:\n    return self.bump(n & 1) ^ self.bump(1)\n\n"
+                                                      "@external\ndef f() -> uint256:\n    saved: uint256 = self.tv\n    r: uint256 = self.bump(2)\n    self.tv = saved\n    return r ^ self.tv\n")
     T["assert.once"] = _f("x: uint256", "uint256", "assert self.c(x)\nreturn 1")
     T["return.once"] = _f("x: uint256", "uint256", "if self.c(x):\n    return self.a(x)\nreturn self.b(x)")
     return T
